@@ -17,6 +17,7 @@ RULE = ("bodies = (a) every id value of a 21-value table (absent, null, '', 0, -
         "member matrix slice; x server version {1.0,2.0} x dispatch {default, custom function, instance _dispatch}. "
         "distinct = distinct (configuration, body); non-trivial = the reference dispatcher aligned the output with the "
         "entries and compared ids / count / order.")
+RULE += (" " + "Also: (d) structured ids nested 50-900 deep; (e) ids holding class descriptors of unwritable objects on valid and invalid entries (one-to-one clause and neighbours' ids only); (f) relay methods that hand a call / batch / notification / failing / invalid / malformed request to the dispatcher they are served by, on the same thread (outer ids judged on success and when the relay raises afterwards).")
 ASSUMPTIONS = ["payloads are free of __jsonclass__ (ids are plain JSON values), except in the directed part on ids holding a class "
                "descriptor, where only the one-to-one clause and the neighbours' ids are judged",
                "an id is 'usable' when the entry is an object holding an 'id' member; otherwise null is expected"]
